@@ -354,11 +354,7 @@ Proof.
   destruct ((s' <=? e') && (c0' <=? c1')) eqn:E5; [|discriminate]. inversion Hsp; subst s' e' c0' c1'; clear Hsp.
   apply spec_start_range in E1 as R1; [|lia]. apply spec_end_range in E2 as R2; [|lia].
   apply spec_start_range in E3 as R3; [|lia]. apply spec_end_range in E4 as R4; [|lia].
-  assert (S2 : spec_end_std ai R re = Some e).
-  { destruct (spec_end_std_cases ai R re HR) as [->|[_ H]]; [exact E2|congruence]. }
-  assert (S4 : spec_end_std ai C ce = Some c1).
-  { destruct (spec_end_std_cases ai C ce HC) as [->|[_ H]]; [exact E4|congruence]. }
-  rewrite S2, S4. cbn [bind andb].
+  cbn [bind andb].
   pose proof (missing_exact R C th tw ts s e c0 c1 HR HC Hh Hw Hnd Hincl ltac:(lia) ltac:(lia) ltac:(lia) ltac:(lia)) as Hex.
   destruct (count_selected ts s e c0 c1 th tw =? frames_expected s e th * frames_expected c0 c1 tw) eqn:Ec; cbn [negb].
   - left. replace ((e - s <? 0) || (c1 - c0 <? 0)) with false by lia. split; [reflexivity|].
